@@ -8,7 +8,7 @@ import time
 from .facts import VERIF
 
 KNOWN = os.path.join(VERIF, "known_findings.jsonl")
-EVID = os.path.join(VERIF, "evidence")
+EVID = os.environ.get("VERIF_EVIDENCE_DIR") or os.path.join(VERIF, "evidence")
 
 
 def load_known():
